@@ -18,7 +18,9 @@ ORows == {Row([k |-> a, s |-> b, n |-> c]) : a \in KVals, b \in SVals, c \in {Nu
 Key(c, asc) == [key |-> <<c>>, asc |-> asc]
 Keys1 == {<<Key(c, d)>> : c \in {"k", "s", "n"}, d \in BOOLEAN}
 Keys2 == {<<Key(c1, d1), Key(c2, d2)>> : c1 \in {"k", "s"}, c2 \in {"k", "s"}, d1 \in BOOLEAN, d2 \in BOOLEAN} \
-         {<<Key(c, d1), Key(c, d2)>> : c \in {"k", "s"}, d1 \in BOOLEAN, d2 \in BOOLEAN}
+         {<<Key(c, d), Key(c, d)>> : c \in {"k", "s"}, d \in BOOLEAN}
+\* (a column named twice with different directions: the first mention decides, the second never gets to)
+Keys3 == {<<Key("k", FALSE), Key("s", TRUE), Key("k", TRUE)>>, <<Key("s", TRUE), Key("k", TRUE), Key("s", FALSE)>>}
 \* ORDER BY on an aliased output column
 AliasSel == <<Item(Col("k"), "x"), Item(Col("s"), "")>>
 KeysX == {<<Key("x", d)>> : d \in BOOLEAN} \cup {<<Key("s", d1), Key("x", d2)>> : d1 \in BOOLEAN, d2 \in BOOLEAN}
@@ -37,7 +39,7 @@ WKeys == {<<>>, <<Key("k", TRUE)>>, <<Key("k", FALSE)>>}
 MkQ(sel, keys, w) == [BaseQ EXCEPT !.sel = sel, !.order = keys, !.limit = w[1], !.offset = w[2]] @@ [limstyle |-> w[3]]
 
 Init ==
-    /\ \/ \E tbl \in SeqsUpTo(ORows, MaxRows) : \E ks \in Keys1 \cup Keys2 : \E w \in Wins0 :
+    /\ \/ \E tbl \in SeqsUpTo(ORows, MaxRows) : \E ks \in Keys1 \cup Keys2 \cup Keys3 : \E w \in Wins0 :
             cs = [fam |-> "order", q |-> MkQ(<<Star>>, ks, w), doc |-> Doc1("t", tbl)]
        \/ \E tbl \in SeqsUpTo(ORows, MaxRows) : \E ks \in KeysX : \E w \in Wins0 :
             cs = [fam |-> "alias", q |-> MkQ(AliasSel, ks, w), doc |-> Doc1("t", tbl)]
@@ -55,6 +57,9 @@ Init ==
        \* a table longer than ten rows: counts of two digits cut it (8, 9, 10 and 11 keep different rows)
        \/ \E ks \in WKeys : \E w \in {<<10, -1, "">>, <<10, 1, "">>, <<8, 2, "comma">>, <<3, 8, "">>, <<9, 0, "comma">>, <<11, 10, "">>, <<2, 10, "comma">>} :
             cs = [fam |-> "window", q |-> MkQ(<<Star>>, ks, w), doc |-> Doc1("t", [i \in 1..12 |-> Row([k |-> NumV((i * 5) % 12)])])]
+       \* tables long enough for the library's sort to leave insertion sort behind (13 rows and more), in several arrangements
+       \/ \E n \in {13, 14, 20, 40} : \E mul \in {1, 3, 7, 11} : \E ks \in {<<Key("k", TRUE)>>, <<Key("k", FALSE)>>} : \E w \in {<<-1, -1, "">>, <<5, 3, "">>} :
+            cs = [fam |-> "window", q |-> MkQ(<<Star>>, ks, w), doc |-> Doc1("t", [i \in 1..n |-> Row([k |-> NumV((i * mul) % (n + 1))])])]
        \/ \E tbl \in SeqsUpTo(WRows, MaxWin) : \E ks \in WKeys : \E w \in WinsAll :
             cs = [fam |-> "window", q |-> MkQ(<<Star>>, ks, w), doc |-> Doc1("t", tbl)]
     /\ EngineInit
